@@ -28,10 +28,32 @@ RULE = ("bundled: for every bundled context every relation and every 2-/3-hop ch
         "resolved by inheritance, or a redefinition seen through a dependent unit; distinct = distinct (contexts, stack, units, value)")
 ASSUMPTIONS = ["rule equations are monomials (true for all bundled contexts and for the generated ones)",
                "with two enclosing contexts that give different values to one parameter the statement does not say which is inherited: not asserted, counted"]
-MIN_COUNTS = {"quick": {"generated": {"multi_hop": 60, "tie_or_collision": 20}, "bundled": {"_evaluations": 300}, "redef": {"_evaluations": 100}}}
+MIN_COUNTS = {"quick": {"generated": {"multi_hop": 40, "tie_or_collision": 20}, "bundled": {"_evaluations": 300}, "redef": {"_evaluations": 100}}}
 
 DIMS = {"L": ("[length]", ["meter", "inch", "kilometer", "foot"]), "T": ("[time]", ["second", "minute", "hour"]), "M": ("[mass]", ["gram", "kilogram", "pound"]),
-        "I": ("[current]", ["ampere", "biot"]), "N": ("[substance]", ["mole"]), "J": ("[luminosity]", ["candela"])}
+        "I": ("[current]", ["ampere", "biot"]), "N": ("[substance]", ["mole"]), "J": ("[luminosity]", ["candela"]),
+        # derived dimension names: rules written with them are normalised to base dimensions by pint (at load or at first activation)
+        "F": ("[frequency]", ["hertz", "kilohertz"]), "E": ("[energy]", ["joule", "erg"]), "A": ("[area]", ["are", "hectare"]), "V": ("[velocity]", ["knot", "mile_per_hour"])}
+
+
+def dname_key(R, dname):
+    """base-dimension key of a (possibly derived) dimension name"""
+    from ..oracle.defreader import V as _V
+
+    return dimkey(R.dim_of_dimexpr(_V(Fraction(1), {dname: Fraction(1)})))
+
+
+def _api_func(rule, ureg):
+    ua, ub = DIMS[rule["a"]][1][0], DIMS[rule["b"]][1][0]
+    c = rule["c"]
+    k = lambda reg: c * reg.Quantity(1, ub) / reg.Quantity(1, ua)  # noqa: E731
+    if rule["form"] == "mul":
+        return lambda reg, value, **kw: value * k(reg)
+    if rule["form"] == "div":
+        return lambda reg, value, **kw: c * reg.Quantity(1, ub) * reg.Quantity(1, ua) / value
+    if rule["form"] == "pmul":
+        return lambda reg, value, p, **kw: value * p * k(reg)
+    return lambda reg, value, p, **kw: value / p * k(reg)
 
 
 def tasks(tier, seed):
@@ -315,7 +337,7 @@ def _generated_strategy():
 
     @st.composite
     def ctx(draw, idx, nodes):
-        nrules = draw(st.integers(1, 4))
+        nrules = draw(st.integers(2, 5))
         rules = []
         for _ in range(nrules):
             a, b = draw(st.sampled_from(nodes)), draw(st.sampled_from(nodes))
@@ -329,14 +351,15 @@ def _generated_strategy():
 
     @st.composite
     def strat(draw):
-        nodes = draw(st.lists(st.sampled_from(keys), min_size=3, max_size=5, unique=True))
+        nodes = draw(st.lists(st.sampled_from(keys), min_size=3, max_size=4, unique=True))
         nctx = draw(st.integers(1, 4))
         ctxs = [draw(ctx(i, nodes)) for i in range(nctx)]
-        a, b = draw(st.sampled_from(nodes)), draw(st.sampled_from(nodes + [k for k in keys if k not in nodes][:1]))
+        a = draw(st.sampled_from(nodes))
+        b = draw(st.sampled_from([k for k in nodes if k != a] * 3 + [a] + [k for k in keys if k not in nodes][:1]))  # mostly another node of the graph
         how = draw(st.sampled_from(HOWS))
         kw = draw(st.sampled_from([None, None, Fraction(5), Fraction(1, 3)]))
         return {"ctxs": ctxs, "src": draw(st.sampled_from(DIMS[a][1])), "dst": draw(st.sampled_from(DIMS[b][1])), "x": draw(st.one_of(st.integers(1, 50), st.fractions(1, 20, max_denominator=9))),
-                "how": how, "kw": kw, "use_object": draw(st.booleans())}
+                "how": how, "kw": kw, "use_object": draw(st.booleans()), "build": draw(st.sampled_from(["lines_to_base", "lines_plain", "api"]))}
 
     return strat()
 
@@ -376,7 +399,7 @@ def case_generated(case, col=None):
                 da, db = DIMS[r["a"]][0], DIMS[r["b"]][0]
                 lines.append(f"    {da} {'<->' if r['bi'] else '->'} {db}: {eq}")
                 v = parse_expr(eq)
-                ka, kb = dimkey({da: 1}), dimkey({db: 1})
+                ka, kb = dname_key(R, da), dname_key(R, db)
                 rules.append((ka, kb, v))
                 if r["bi"]:
                     rules.append((kb, ka, v))
@@ -384,7 +407,22 @@ def case_generated(case, col=None):
                 continue
             if c["default"] is not None and not any(r["form"] in ("pmul", "pdiv") for r in c["rules"]):
                 continue
-            s, obj = attempt(lambda: pint.Context.from_lines(lines, ureg.get_dimensionality, non_int_type=Fraction))
+            build = case.get("build", "lines_to_base")
+            if build == "api":
+                # the same context through the Python API: Context() + add_transformation with the dimension names as written
+                def mk():
+                    o = pint.Context(name, aliases=((name + "a",) if c["alias"] else ()), defaults=({"p": c["default"]} if c["default"] is not None else None))
+                    for r in c["rules"]:
+                        da_, db_ = DIMS[r["a"]][0], DIMS[r["b"]][0]
+                        o.add_transformation(da_, db_, _api_func(r, ureg))
+                        if r["bi"]:
+                            o.add_transformation(db_, da_, _api_func(r, ureg))
+                    return o
+                s, obj = attempt(mk)
+            elif build == "lines_plain":
+                s, obj = attempt(lambda: pint.Context.from_lines(lines, non_int_type=Fraction))
+            else:
+                s, obj = attempt(lambda: pint.Context.from_lines(lines, ureg.get_dimensionality, non_int_type=Fraction))
             if s == "err":
                 raise Violation(f"valid_context_refused:{exc_class(obj)}", f"{lines}: {obj!r}")
             ureg.add_context(obj)
